@@ -283,6 +283,35 @@ def run(ctx):
                 ctx.violation(msg, {"kind": "train", "rows": e["rows"]})
             if nbad > 20:
                 break
+    # a screen of study size (thousands of observed experiments): still exactly the observed experiments, each once, transformed as documented
+    for N in ((5400,) if ctx.quick else (4096, 5400, 9000)):
+        rows = [{"s": int(rng.integers(2)), "t": [int(rng.integers(-1, 2)), int(rng.integers(-1, 2))], "m": bool(rng.random() < 0.9), "c": "ok"} for _ in range(N)]
+        scr = build(rows, rng, ok_range=(0.05, 1.4))
+        model = SC.SparseDrugCombo(experiment_space=ExperimentSpace.from_screen(scr), n_embedding_dimensions=1)
+        st, r = outcome(train_path, model, scr)
+        ctx.evaluations += 1
+        if st != "ok":
+            ctx.violation("combo refused / raised on a screen of %d experiments: %s" % (N, r), {"kind": "large", "N": N})
+            continue
+        wm = model.wrapped_model
+        obs_idx = [i for i, x in enumerate(rows) if x["m"]]
+        def groups(items):
+            g = {}
+            for key, yv in items:
+                g.setdefault(key, []).append(yv)
+            return {k_: sorted(v) for k_, v in g.items()}
+
+        def logit_clip(v):
+            v = min(max(float(v), 0.01), 0.99)
+            return math.log(v / (1 - v))
+        want_g = groups(((rows[i]["s"], rows[i]["t"][0], rows[i]["t"][1]), logit_clip(scr.observations[i])) for i in obs_idx)
+        got_g = groups(((int(wm.cline[j]), int(wm.dd1[j]), int(wm.dd2[j])), float(wm.y[j])) for j in range(len(wm.y)))
+        got, want = 0, 0
+        if set(got_g) != set(want_g) or any(len(got_g[k_]) != len(want_g[k_]) or not np.allclose(got_g[k_], want_g[k_], rtol=0, atol=5e-3) for k_ in want_g):
+            got = 1
+        if model.n_obs() != len(obs_idx) or got != want or not index_maps_ok(wm):
+            ctx.violation("combo on a screen of %d experiments (%d observed) holds %d training data; as a multiset they %s the documented ones" % (
+                N, len(obs_idx), model.n_obs(), "are" if got == want else "are not"), {"kind": "large", "N": N})
     shutil.rmtree(CLI_TMP[0], ignore_errors=True)
     ctx.traces += len(pick)
     ctx.exhaustive = len(pick) == len(cases)
